@@ -49,6 +49,9 @@ type Program struct {
 	Instrs  []Instr  `json:"instrs"`
 	// C44: which tables have a trigger; the trigger throws when column a of
 	// the old or new row equals valDomain[ThrowOn] (-1: never)
+	// Async: no checker barrier after each step (conflict aborts then reach
+	// the transaction while later messages of it are already queued)
+	Async   bool   `json:"async,omitempty"`
 	Trig    []bool `json:"trig,omitempty"`
 	ThrowOn int    `json:"throwon,omitempty"`
 }
@@ -84,6 +87,7 @@ func genProgram(t *rapid.T, o GenOpts) Program {
 		}
 		return defaultWeights[op]
 	}
+	p.Async = gen.Chance(t, "async", 25)
 	p.ThrowOn = -1
 	if o.Triggers {
 		for range p.Schemas {
@@ -774,7 +778,12 @@ func (r *run) noteFailure(ts *tranState, err string) {
 
 // syncChecker: a low-priority round trip through the checker queue; when it
 // returns every earlier message of every transaction has been processed.
-func (r *run) syncChecker() { r.db.Final() }
+func (r *run) syncChecker() {
+	if r.prog != nil && r.prog.Async {
+		return
+	}
+	r.db.Final()
+}
 
 func (r *run) afterOp(ts *tranState) {
 	r.syncChecker()
@@ -1174,6 +1183,9 @@ func (r *run) mustBeDead(ts *tranState) {
 	if !ts.isUpdate() {
 		return
 	}
+	// (an abort is asynchronous: the transaction is failed once the checker
+	// has processed the message, so wait for that even in async programs)
+	r.db.Final()
 	td := ts.w.Tables[0]
 	row := rowFromK([]int{1, 2, 3, 4}, len(td.Cols))
 	err := catch(func() { ts.ut.Lookup(td.Name, 0, td.Idx[0].key(row)) })
@@ -1398,9 +1410,9 @@ func (r *run) applyWrite(ts *tranState, in Instr, op *logOp, off uint64) bool {
 			r.noteFailure(ts, f)
 			return false
 		}
-		props := []string{"C06", "C03"}
+		props := []string{"C06", "C03", "C02"}
 		if len(chs) > 1 {
-			props = []string{"C08", "C06"}
+			props = []string{"C08", "C06", "C02"}
 		}
 		r.verifyOwnView(ts, "after "+op.String(), props...)
 		return true
@@ -1431,7 +1443,7 @@ func (r *run) applyWrite(ts *tranState, in Instr, op *logOp, off uint64) bool {
 		r.label("unexpected_refusal:" + firstWords(err, 3))
 	}
 	// a refused operation must leave the transaction's view unchanged
-	r.verifyOwnView(ts, "after refused "+op.String(), "C06", "C03", "C08")
+	r.verifyOwnView(ts, "after refused "+op.String(), "C06", "C03", "C08", "C02")
 	return true
 }
 
